@@ -55,7 +55,7 @@ static void *r_realloc (void *p, size_t old, size_t n, void *u) {
 }
 static struct MIR_alloc r_alloc = {r_malloc, r_calloc, r_realloc, r_free, NULL};
 
-/* ---------------- sanitizer reports (library and harness are built with -fsanitize-recover=address) ---- */
+/* ---------------- sanitizer reports (ASAN_OPTIONS=halt_on_error=0: errors found by the memset/memmove interceptors do not stop the run) ---- */
 static int asan_hits;
 static char asan_first[160];
 void __asan_set_error_report_callback (void (*cb) (const char *));
